@@ -72,6 +72,8 @@ const SNIPPETS: &[(&str, &str)] = &[
     ("probe_every_built_in_name", CENSUS),
     ("import_m", "import \"m\";\nprint(m.v);\n"),
     ("bump_m", "m.v = m.v + 1;\nprint(m.v);\n"),
+    ("import_m_then_fail", "import \"m\";\nm.v = m.v + 1;\nprint(m.v);\nprint(zz_never_defined);\n"),
+    ("import_m_in_a_function_then_fail", "fn zz_imp() { import \"m\"; m.v = m.v + 1; print(m.v); throw \"in zz_imp\"; }\nzz_imp();\n"),
     ("import_uncompilable_module", "import \"badsyn\";\nprint(\"not reached\");\n"),
     ("import_module_whose_body_throws", "import \"thrower\";\nprint(\"not reached\");\n"),
     ("probe_failed_imports", "try { print(badsyn); } catch e { print(type(e)); }\ntry { print(thrower); } catch e { print(type(e)); }\ntry { print(before); } catch e { print(type(e)); }\n"),
@@ -140,12 +142,12 @@ fn after_history_cases(thorough: bool) -> Vec<crate::mcheck::Case> {
     }
     corpus.extend(crate::c08::reentered_after_abrupt_finally_exit());
     corpus.extend(crate::c08::recursion_from_finally().into_iter().step_by(if thorough { 1 } else { 4 }));
-    corpus.extend(crate::c08::loop_with_pair_cases().into_iter().step_by(if thorough { 7 } else { 49 }));
-    corpus.extend(crate::c06::cases_for_c04(false).into_iter().step_by(if thorough { 3 } else { 16 }));
-    corpus.extend(crate::c07::cases_for_c04(false).into_iter().step_by(if thorough { 5 } else { 40 }));
+    corpus.extend(crate::c08::loop_with_pair_cases().into_iter().step_by(if thorough { 7 } else { 70 }));
+    corpus.extend(crate::c06::cases_for_c04(false).into_iter().step_by(if thorough { 3 } else { 24 }));
+    corpus.extend(crate::c07::cases_for_c04(false).into_iter().step_by(if thorough { 5 } else { 60 }));
     corpus.extend(crate::c18::cases_for_c04(false).into_iter().step_by(if thorough { 2 } else { 9 }));
-    corpus.extend(crate::c05::cases_for_c04(false).into_iter().step_by(if thorough { 11 } else { 90 }));
-    corpus.extend(crate::c17::cases_for_c01(false).into_iter().step_by(if thorough { 1 } else { 6 }));
+    corpus.extend(crate::c05::cases_for_c04(false).into_iter().step_by(if thorough { 11 } else { 130 }));
+    corpus.extend(crate::c17::cases_for_c01(false).into_iter().step_by(if thorough { 1 } else { 9 }));
     if thorough {
         for n in crate::c08::nests_of_depth(2).into_iter().step_by(5) {
             corpus.push(Case::new("after_history", crate::c08::program(&[n])));
@@ -305,6 +307,23 @@ fn step(s: &St, name: &str) -> (St, Vec<String>, String) {
             out.push(format!("{}", s.m_v));
             (n, out, ok)
         }
+        "import_m_then_fail" | "import_m_in_a_function_then_fail" => {
+            // what the snippet completed before it failed stays: the module is loaded (once), its state
+            // changed, and - at top level - the name is bound
+            let mut out = Vec::new();
+            if !s.m_loaded {
+                out.push("load m".to_string());
+            }
+            n.m_loaded = true;
+            n.m_v = s.m_v + 1;
+            out.push(format!("{}", s.m_v + 1));
+            if name == "import_m_then_fail" {
+                n.m_global = true;
+                (n, out, name_err("zz_never_defined"))
+            } else {
+                (n, out, "Unhandled exception: in zz_imp".into())
+            }
+        }
         "bump_m" => {
             if s.m_global {
                 n.m_v = s.m_v + 1;
@@ -422,7 +441,7 @@ pub fn run(ctx: &Ctx) -> Report {
     expect::fill(
         &mut report,
         &stats,
-        "breadth-first search over histories of snippets fed to one interpreter, with canonical reference state (surviving globals, functions, classes, fiber objects, loaded modules); alphabet of 39 snippets: definitions and uses, a compile error, uncaught throws at top level / two calls deep / inside a fiber / inside try-finally / while a class is half-declared / from a built-in inside a method, clean try/finally, try/catch and class+loop probes, a fiber left suspended inside try/finally and resumed by a later snippet, probes of a fiber that died from an uncaught throw and of a chain of two such fibers (both must be finished), closures that escaped into globals from a call frame / a fiber discarded by an uncaught throw - the throwing one, and a fiber or a main-fiber frame that was waiting for it - and are called later (swept objects quarantined: any touch of freed memory is a violation), assignments to undefined globals that end the snippet (top level, in a call, in a fiber) and a `var` whose initialiser fails, with a probe that none of those names came into being, import and module mutation, imports that fail (a module that does not compile: the same ImportError every time; a module whose body throws: the thrown value the first time and again after a reset - what a further import without a reset yields is outside the property, it only must not panic) with a probe that they bound nothing, a probe of every one of the 30 built-in names, reset. Every transition is replayed as the shortest history reaching its source state plus the snippet, on a fresh real interpreter; each snippet's printed lines and outcome must equal the model's; no snippet may panic. Because that search merges histories by model state, a second family runs every history up to length 3 (4) over the whole alphabet without merging, so that every snippet - in particular every failing one, which leaves the model state unchanged - is followed by every other.",
+        "breadth-first search over histories of snippets fed to one interpreter, with canonical reference state (surviving globals, functions, classes, fiber objects, loaded modules); alphabet of 41 snippets: definitions and uses, a compile error, uncaught throws at top level / two calls deep / inside a fiber / inside try-finally / while a class is half-declared / from a built-in inside a method, clean try/finally, try/catch and class+loop probes, a fiber left suspended inside try/finally and resumed by a later snippet, probes of a fiber that died from an uncaught throw and of a chain of two such fibers (both must be finished), closures that escaped into globals from a call frame / a fiber discarded by an uncaught throw - the throwing one, and a fiber or a main-fiber frame that was waiting for it - and are called later (swept objects quarantined: any touch of freed memory is a violation), assignments to undefined globals that end the snippet (top level, in a call, in a fiber) and a `var` whose initialiser fails, with a probe that none of those names came into being, import and module mutation, a snippet that imports a module (at top level, inside a function), changes its state and then fails, imports that fail (a module that does not compile: the same ImportError every time; a module whose body throws: the thrown value the first time and again after a reset - what a further import without a reset yields is outside the property, it only must not panic) with a probe that they bound nothing, a probe of every one of the 30 built-in names, reset. Every transition is replayed as the shortest history reaching its source state plus the snippet, on a fresh real interpreter; each snippet's printed lines and outcome must equal the model's; no snippet may panic. Because that search merges histories by model state, a second family runs every history up to length 3 (4) over the whole alphabet without merging, so that every snippet - in particular every failing one, which leaves the model state unchanged - is followed by every other.",
         json!({"history_length": depth, "snippets": SNIPPETS.len()}),
     );
     report.cov("states", json!(states));
